@@ -13,7 +13,7 @@ import sys
 import time
 import traceback
 
-from .loop import CLOCK, EPOCH, SimLoop
+from .loop import CLOCK, EPOCH, SimLoop, StepLimit
 from .orderedset import OrderedSet
 
 
@@ -53,6 +53,8 @@ class Recorder(object):
 
 
 REC = Recorder()
+# properties with a progress clause: a spin in the code under test violates them
+LIVENESS_PROPS = ('C01', 'C07', 'C08', 'C09', 'C10', 'C17')
 EXTRA = {}
 
 
@@ -180,7 +182,17 @@ def run_scenario(scn):
   try:
     loop = bootstrap(scn['seed'], scn.get('loop'), scn.get('permute_sets', False))
     world = importlib.import_module('worlds.' + scn['world'])
-    world.run(scn)
+    try:
+      world.run(scn)
+    except StepLimit:
+      # the system under test spins without letting virtual time advance
+      prop = (scn.get('gen') or {}).get('prop')
+      if prop in LIVENESS_PROPS:
+        REC.violation(prop, 'livelock',
+                      'the run executed %d loop steps without finishing (virtual time %.3f s): the code spins' % (
+                        SimLoop.INSTANCE.steps, CLOCK.now - EPOCH))
+      else:
+        raise
     res['ok'] = True
     res['nontrivial'] = any(REC.probes.get(p) for p in getattr(world, 'RACE_PROBES', ()))
   except BaseException as e:  # harness error, not a violation
